@@ -71,6 +71,8 @@ func runC18(p *core.Program, r *core.Report) {
 	// R16: "generates for a valid origin": the package of every type reached from a loaded package is in the universe -
 	// Context.Doc looks the field's package up there (C13.R3)
 	chainRules(p, r, "R16", "C13", []string{"C13.R3"}, "the imports of every registered package are followed")
+	// round 8: the shared copy helper gives every field a copy statement
+	chainRules(p, r, "R17", "C17", []string{"C17.R9"}, "every field of the struct gets a copy statement")
 	// R6: "foreign types correctly imported" - every package the type printer registered is
 	// imported under the very name the rendered field types use (C03.R2's printer rule)
 	r.Floor("R6", 2)
